@@ -341,7 +341,7 @@ Ltac has_test :=
             let v := eval vm_compute in (has a b) in
             match v with true => idtac | false => idtac end; change (has a b) with v
           end).
-Ltac step' L := pnorm; erewrite pbind_some by (apply L; side); cbv beta; pnorm.
+Ltac step' L := pnorm; erewrite pbind_some by (eapply L; side); cbv beta; pnorm.
 
 (* ------------------------------------------------------------------ column specifications *)
 Lemma rt_colspecs_global : forall pv ks tb cols rest,
@@ -414,4 +414,98 @@ Proof.
       rewrite (rt_glob_cols pv cs flags rest); [reflexivity|assumption|exact F1].
     + pnorm. rewrite app_nil_l.
       rewrite (rt_glob_cols pv cs flags rest); [reflexivity|assumption|exact F1].
+Qed.
+
+(* ------------------------------------------------------------------ schema change, RESULT *)
+Ltac lit_test :=
+  repeat (match goal with
+          | |- context [list_eqb ?a ?b] =>
+            let v := eval vm_compute in (list_eqb a b) in
+            match v with true => idtac | false => idtac end; change (list_eqb a b) with v
+          end); cbv iota.
+
+Lemma rt_schema : forall pv sc rest, wf_schema_change pv sc = true ->
+  rd_schema_change pv (enc_schema_change pv sc ++ rest) = Some (exact_schema sc, rest).
+Proof.
+  intros pv [ch ks tg] rest W. unfold wf_schema_change in W. cbn [sc_change sc_keyspace sc_target] in W.
+  unfold rd_schema_change, enc_schema_change, exact_schema. cbn [sc_change sc_keyspace sc_target].
+  destruct (3 <=? pv) eqn:E; bsplit; repeat rewrite <- app_assoc.
+  - destruct tg; cbn [target_name]; step' rt_string; step' rt_string; step' rt_string; lit_test; bsplit.
+    + reflexivity.
+    + step' rt_string. reflexivity.
+    + step' rt_string. reflexivity.
+    + repeat rewrite <- app_assoc. step' rt_string. step' rt_stringlist. reflexivity.
+    + repeat rewrite <- app_assoc. step' rt_string. step' rt_stringlist. reflexivity.
+  - step' rt_string. step' rt_string.
+    destruct tg; bsplit; try discriminate.
+    + step' rt_string. reflexivity.
+    + step' rt_string. 
+      match goal with H : (_ || negb (list_eqb ?n [])) = true |- _ => cbn [orb] in H; apply negb_true_iff in H; rewrite H end.
+      reflexivity.
+Qed.
+
+Lemma len_cols_list : forall cs, len (cols_list cs) = cols_count cs.
+Proof. destruct cs; cbn [cols_list cols_count]; [apply len_map|reflexivity]. Qed.
+
+Lemma rt_row : forall (row : list (option bytes)) rest, forallb wf_obytes row = true ->
+  rd_count (len row) rd_value (enc_list enc_bytes row ++ rest) = Some (row, rest).
+Proof.
+  intros. rewrite (rt_count _ _ (fun c => c)); [rewrite map_id; reflexivity|].
+  intros x r Hin. apply rt_value. eapply forallb_In; eassumption.
+Qed.
+
+Lemma rt_rows_body : forall n (rows : list (list (option bytes))) rest,
+  forallb (fun row => (len row =? n) && forallb wf_obytes row) rows = true ->
+  rd_count (len rows) (rd_count n rd_value) (enc_list (enc_list enc_bytes) rows ++ rest) = Some (rows, rest).
+Proof.
+  intros. rewrite (rt_count _ _ (fun c => c)); [rewrite map_id; reflexivity|].
+  intros x r Hin. pose proof (forallb_In _ _ _ H Hin) as W. cbv beta in W. apply andb_prop in W. destruct W as [W1 W2].
+  apply Z.eqb_eq in W1. subst n. apply rt_row. assumption.
+Qed.
+
+Lemma rt_result : forall pv rm r rest, wf_result pv rm r = true ->
+  rd_result pv rm (enc_result pv r ++ rest) = Some (exact_result rm r, rest).
+Proof.
+  intros pv rm r rest W. destruct r as [|m rows|ks|id mid pk bind res|sc]; cbn [wf_result] in W;
+    unfold rd_result; cbn [enc_result]; repeat rewrite <- app_assoc.
+  - step' rt_int. ctest. reflexivity.
+  - step' rt_int. ctest. bsplit. unfold rd_rows. step' rt_rmeta. step' rt_int.
+    cbn [exact_result]. unfold meta_count in *.
+    destruct m as [paging newid cols]. cbn [rm_cols exact_rmeta mo_cols mo_paging mo_meta_id mo_cp_seq mo_cp_last] in *.
+    destruct cols as [n|cs].
+    + destruct rm as [c|]; [|discriminate]. destruct (len c =? n) eqn:E; [|discriminate]. apply Z.eqb_eq in E. subst n.
+      bsplit. erewrite pbind_some by (eapply rt_rows_body; eassumption). reflexivity.
+    + bsplit. rewrite <- len_cols_list in *. destruct (cols_list cs) as [|c0 cr] eqn:EC; [discriminate|].
+      erewrite pbind_some by (eapply rt_rows_body; eassumption). reflexivity.
+  - step' rt_int. ctest. step' rt_string. reflexivity.
+  - step' rt_int. ctest. unfold rd_prepared. bsplit. step' rt_bstring.
+    assert (Hmid : forall {B} (K : option bytes -> P B) r,
+      (x <- (if uses_prepared_metadata pv then (y <- rd_bstring ;; ret (Some y)) else ret None) ;; K x)
+        (match mid with Some i => enc_short_bytes i | None => [] end ++ r) = K mid r).
+    { intros B K r. change (uses_prepared_metadata pv) with (spec_metadata_id pv).
+      destruct mid as [i|], (spec_metadata_id pv); try discriminate; cbn [is_some].
+      - step' rt_bstring. reflexivity.
+      - reflexivity. }
+    rewrite Hmid. clear Hmid.
+    assert (FG : has (b2z (cols_global bind) 1) 1 = cols_global bind /\ wf_int (b2z (cols_global bind) 1) = true).
+    { destruct (cols_global bind); split; reflexivity. }
+    destruct FG as [FG FW].
+    step' rt_int.
+    assert (Wc : wf_int (cols_count bind) = true).
+    { match goal with H : wf_cols _ bind = true |- _ => unfold wf_cols in H; apply andb_prop in H; tauto end. }
+    step' rt_int.
+    assert (Hpk : forall {B} (K : option (list Z) -> P B) r,
+      (x <- (if 4 <=? pv then (y <- (n <- rd_int ;; rd_count n rd_short) ;; ret (Some y)) else ret None) ;; K x)
+        (match pk with Some l => enc_int (len l) ++ enc_list enc_short l | None => [] end ++ r) = K pk r).
+    { intros B K r. destruct pk as [l|], (4 <=? pv); try discriminate; cbn [is_some].
+      - bsplit. repeat rewrite <- app_assoc. step' rt_int.
+        erewrite pbind_some; [reflexivity|]. rewrite (rt_count _ _ (fun c => c)); [rewrite map_id; reflexivity|].
+        intros x r' Hin. apply rt_short. eapply forallb_In; eassumption.
+      - reflexivity. }
+    rewrite Hpk. clear Hpk.
+    rewrite (rt_glob_cols pv bind _ _ _ ltac:(eassumption) FG).
+    destruct res as [m|], (2 <=? pv); try discriminate; cbn [is_some].
+    + step' rt_rmeta. reflexivity.
+    + reflexivity.
+  - step' rt_int. ctest. step' rt_schema. reflexivity.
 Qed.
